@@ -189,7 +189,7 @@ def run(tier, t0):
         part.merge(p)
     part.merge(runner.hyp_shards("vf.props.c08", "hyp_part", 6400 if tier == "quick" else 200000))
     from ..fuzz import driver
-    fuzz_note = driver.campaign(part, "dialogue", runs=120000 if tier == "quick" else 3000000, only=("builder",))
+    fuzz_note = driver.campaign(part, "dialogue", runs=120000 if tier == "quick" else 1200000, only=("builder",))
     rule = ("accepted vectors with every subset of optional metrics (uniform presence, any input order) + deterministic "
             "covering set, each vector emitted from a fresh object or after up to three other accessor calls (no optional metric; every single optional metric with every value; all optional metrics in two "
             "orders; pairs of metrics from different groups) + interactive answer scripts for every version form and both "
